@@ -16,7 +16,7 @@ MIN_NONTRIVIAL = {"quick": 50, "thorough": 500}
 RULE = (
     "Hypothesis draws integrator x compatible system x metric x state x step size 0.02-0.3 x 1-3 steps (solver "
     "tolerances 1e-13; a default-tolerance stratum is judged at 1e-3). Unconstrained: Jacobian J of (q,p) -> "
-    "step^n(q,p) by 4th-order central differences (h=1e-4); |J' Omega J - Omega|_max <= 1e-6 (1+|J|^2). Constrained: "
+    "step^n(q,p) (between steps the state is left alone, has its energy evaluated, is copied, deep-copied or pickled) by 4th-order central differences (h=1e-4); |J' Omega J - Omega|_max <= 1e-6 (1+|J|^2). Constrained: "
     "4 generated ambient directions are turned into tangent vectors of the cotangent bundle by differentiating the "
     "harness's own projection Proj(z + s w), pushed through the step by the same differences, and the canonical "
     "2-form dq^dp on all 6 pairs must agree before and after (1e-6 (1+|xi|^2+|eta|^2)). Steps that raise an "
@@ -34,7 +34,10 @@ def _case(draw):
     tight = draw(st.integers(0, 5)) > 0
     return {"sys": spec, "int": draw(dyn.integrator_spec(spec["cls"], tight=tight)), "q": draw(vec(n, -1.2, 1.2)),
             "p": draw(vec(n, -1.5, 1.5)), "dir": draw(st.sampled_from([1, -1])), "n": draw(st.integers(1, 3)),
-            "w": draw(vec(8 * n, -1.0, 1.0))}
+            "w": draw(vec(8 * n, -1.0, 1.0)),
+            # what a caller does with the state between steps (a sampler evaluates the energy, copies, and ships states
+            # to worker processes): the composed map must be the same symplectic map
+            "between": draw(st.sampled_from(["nothing", "nothing", "energy", "copy", "deepcopy", "pickle"]))}
 
 
 def strategy(tier):
@@ -52,8 +55,12 @@ def run_case(case) -> Result:
     from mici.errors import IntegratorError
     from mici.states import ChainState
 
+    import copy
+    import pickle
+
     res = Result()
     spec, ispec = case["sys"], case["int"]
+    between = case.get("between", "nothing") if case["n"] > 1 else "nothing"
     system, model = zoo.build_system(spec)
     made = dyn.make_state(model, case["q"], case["p"], case["dir"])
     if made is None:
@@ -64,7 +71,7 @@ def run_case(case) -> Result:
     n = q0.size
     integ = dyn.build_integrator(ispec, system)
     it = ispec["type"]
-    res.classes += ["int:" + it, "sys:" + spec["cls"], "tight" if ispec["tight"] else "default-tol"]
+    res.classes += ["int:" + it, "sys:" + spec["cls"], "tight" if ispec["tight"] else "default-tol", "between:" + between]
     tol = 1e-6 if (ispec["tight"] or it in dyn.EXPLICIT) else 1e-3
     h = 1e-4
     Omega = np.block([[np.zeros((n, n)), np.eye(n)], [-np.eye(n), np.zeros((n, n))]])
@@ -75,7 +82,15 @@ def run_case(case) -> Result:
     def flow(z):
         s = ChainState(pos=z[:n].copy(), mom=z[n:].copy(), dir=case["dir"])
         try:
-            for _ in range(case["n"]):
+            for k in range(case["n"]):
+                if k > 0 and between != "nothing":
+                    system.h(s)
+                    if between == "copy":
+                        s = s.copy()
+                    elif between == "deepcopy":
+                        s = copy.deepcopy(s)
+                    elif between == "pickle":
+                        s = pickle.loads(pickle.dumps(s))
                 s = integ.step(s)
         except IntegratorError as e:
             raise Failed(type(e).__name__) from e
